@@ -226,6 +226,13 @@ theorem path_prefix_spec (p path : Str) (ci : Bool) :
   rw [h]
   cases ci <;> simp [Spec.pathPrefix, prefixFold_iff]
 
+/-- "regex (full-string)": the reference matcher used for every regex matcher (header, string, path) accepts a
+    subject iff the WHOLE subject is a word of the regex's language `Lang` (the inductive textbook semantics:
+    literal, `.` = any byte but newline, class range, concatenation, alternation, star) — not a substring search.
+    In the implementation this is what `CompileSafeRegex`'s `^(?:…)$` wrapping buys; the correspondence run
+    compares the two on every regex op. -/
+theorem regex_full_string (r : Re) (s : Str) : r.matches s = true ↔ Lang r s := matches_iff s r
+
 /-- regex path: the whole path is in the regex's language. -/
 theorem path_regex_spec (re : Re) (path : Str) : (PathMatcher.regex re).match path = re.matches path := rfl
 
